@@ -91,7 +91,7 @@ func classify(err error) *Finding {
 		default:
 			cat = CatInvTable
 		}
-	case strings.Contains(msg, "Alive(") || strings.Contains(msg, "zero entity") || strings.Contains(msg, "Entities.Used") || strings.Contains(msg, "share id") || strings.Contains(msg, "already issued"):
+	case strings.Contains(msg, "Alive(") || strings.Contains(msg, "zero entity") || strings.Contains(msg, "Entities.Used") || strings.Contains(msg, "Stats().Nodes") || strings.Contains(msg, "share id") || strings.Contains(msg, "already issued"):
 		cat = CatHandles
 	case strings.Contains(msg, "Resources."):
 		cat = CatResources
@@ -469,6 +469,18 @@ func (s *Sim) dispatch(o *Op) {
 		s.doRegisterNew(o)
 	case OpAddListener:
 		s.doAddListener(o)
+	case OpFanout:
+		// many targets in one relation node (more tables than a storage page holds)
+		for i := 0; i < o.N && !s.Done(); i++ {
+			par := Op{K: OpNew, Add: o.Add, T: TNone}
+			s.dispatch(&par)
+			if s.Done() {
+				return
+			}
+			ch := Op{K: OpBuildNew, Add: o.Rem, Rel: true, C: o.C, T: len(s.M.Ents) - 1, N: 1}
+			s.dispatch(&ch)
+		}
+		s.label("fanout: > 32 targets in one node")
 	case OpLockedRegistration:
 		s.doLockedRegistration(o)
 	case OpNew, OpNewWith, OpBuildNew:
